@@ -82,6 +82,7 @@ struct Prov {
   std::vector<std::pair<std::string, uint32_t>> cnames;   // (owner lower, ttl)
   std::vector<std::string> ptr_names;
   bool cookie_valid = true; bool carried_server_cookie = false; int outcome = -1; size_t txs_at_injection = 0;
+  Bytes server_cookie_sent; Bytes client_cookie_echoed;   // COOKIE option content of this reply (if any)
   int on_current_conn = -1;   // forged packets: was the targeted query assigned to the receiving socket when the bytes were read (-1 not evaluated)
 };
 
@@ -222,8 +223,8 @@ struct World {
       // cookie behaviour of this server
       if (tx.has_cookie && tx.server >= 0 && !tx.tcp) {
         ServerCfg &sc = servers[(size_t)tx.server]; Bytes client = tx.cookie.substr(0, 8);
-        if (sc.cookie_mode == "valid" || outcome == O_BADCOOKIE) { opts.opts.push_back({10, client + sc.server_cookie}); pv.carried_server_cookie = true; }
-        else if (sc.cookie_mode == "changing") { sc.cookie_gen++; Bytes sc2 = sc.server_cookie; sc2[7] = (char)('0' + sc.cookie_gen % 10); opts.opts.push_back({10, client + sc2}); pv.carried_server_cookie = true; }
+        if (sc.cookie_mode == "valid" || outcome == O_BADCOOKIE) { opts.opts.push_back({10, client + sc.server_cookie}); pv.carried_server_cookie = true; pv.server_cookie_sent = sc.server_cookie; pv.client_cookie_echoed = client; }
+        else if (sc.cookie_mode == "changing") { sc.cookie_gen++; Bytes sc2 = sc.server_cookie; sc2[7] = (char)('0' + sc.cookie_gen % 10); opts.opts.push_back({10, client + sc2}); pv.carried_server_cookie = true; pv.server_cookie_sent = sc2; pv.client_cookie_echoed = client; }
         else if (sc.cookie_mode == "wrongclient") { Bytes c2 = client; c2[0] = (char)(c2[0] ^ 0x55); opts.opts.push_back({10, c2 + sc.server_cookie}); pv.cookie_valid = false; }
         else if (sc.cookie_mode == "short") opts.opts.push_back({10, client});
       }
@@ -322,7 +323,7 @@ struct World {
         Dgram d = s->inq[i]; s->inq.erase(s->inq.begin() + (long)i);
         size_t n = std::min(len, d.data.size()); memcpy(buf, d.data.data(), n);
         if (from && fromlen) { struct sockaddr_storage ss; ares_socklen_t sl; d.from.to_sockaddr(&ss, &sl); if (*fromlen >= sl) { memcpy(from, &ss, sl); *fromlen = sl; } }
-        w.delivered.push_back({w.now_us, fd, d.serial, n}); w.log("arecvfrom", fd, (long)n, 0, n); return (ares_ssize_t)n;
+        w.delivered.push_back({w.now_us, fd, d.serial, n, ++w.evseq}); w.log("arecvfrom", fd, (long)n, 0, n); return (ares_ssize_t)n;
       }
       w.log("arecvfrom", fd, -1, EWOULDBLOCK); errno = EWOULDBLOCK; return -1;
     }
@@ -372,7 +373,7 @@ struct World {
     if (readable || writable) { s->announced = true; s->want_read = readable; s->want_write = writable; }
     else { s->final_notifications++; s->want_read = s->want_write = false; }
   }
-  struct Delivered { int64_t t; int fd; uint32_t serial; size_t n; };
+  struct Delivered { int64_t t; int fd; uint32_t serial; size_t n; uint64_t ev; };
   std::vector<Delivered> delivered;
   struct SockStateEv { int64_t t; int fd; int r, w; bool open; };
   std::vector<SockStateEv> sockstate_events;
